@@ -57,6 +57,43 @@ claim("C17", "exploration", "runtime monitor: hook H4 routing trace vs harness-s
       "For every (stream, event uid, depth) the number of times the stream processed that event instance (hook H4, all four entry points) must equal the consumption relation computed from the program text, closed over chain depth < 10; chains, diamonds via merge, self-named streams, streams without emit, terminal window/sequence/join consumers.",
       "Sequences/joins over derived streams are excluded (the engine resolves them to base type + filter, an internal choice).", "DESIGN §2 C17")
 
+claim("C08", "exploration", "runtime monitor: exact rational int/float order oracle in four real evaluation contexts",
+      "All pairs of a ~90-value boundary table (0, +-0.0, +-1, +-0.5, 2^53+-1, i64 extremes, fractional neighbours, NaN) as field/field, field/literal and literal/field operands of < <= > >= in .where, .emit, .having and .pattern; oracle compares through the float's bit decomposition against i128 (no `as f64`); the consequence a>=b <=> a>b or a==b is counted.", "Negative literals are not used inside .pattern lambdas (not folded there).", "DESIGN §2 C08")
+claim("C09", "exploration", "runtime monitor: differential .where vs sequence-step placements of the same filter",
+      "The same generated filter (depth <=3, == != < <= > >= and or not, int/float/string/bool/missing fields, literal type independent of field type) in `.where`, as first step of sequence(..) and as a later arrow step; accepted uid sets compared; disagreements minimised to the smallest differing sub-filter.", "Filters containing `not` are injected by AST substitution because the text parser drops `not` (side finding).", "DESIGN §2 C09")
+claim("C11", "exploration", "runtime monitor: catch_unwind / subprocess-abort detection over operators x builtins x boundary values",
+      "Every operator and builtin template over 68 boundary values (1- and 2-ary exhaustive) plus random nested expressions, through eval_filter_expr, .where, .emit and .process; expression kinds without an evaluator rule run in a child process so that an abort is observed. Dev profile with overflow checks on.", "Release profile not exercised.", "DESIGN §2 C11")
+claim("C22", "fault_enumeration", "runtime monitor: crash-injecting StateStore under the real REST routes + model of acknowledged state",
+      "Histories of <=8 tenant/pipeline management operations over 2 tenants x 3 pipelines through the real warp routes on a CrashStore (MemoryStore / FileStore) that fails every write from index k on, for EVERY k; restart through the path main.rs takes; recovered tenants, keys, pipelines (name, source, status) must equal the model before or after the single in-flight operation.", "Crash granularity is a whole put/delete (inside FileStore::put is C21's subject).", "DESIGN §2 C22")
+claim("C26", "exploration", "runtime monitor: offline checker over the H7 cross-context trace + differential with the plain engine, under seeded schedule perturbation",
+      "Real ContextOrchestrator on OS threads, capacities 1-1000, hook H7 yields/sleeps at recv/forward/barrier: every forwarded cross-context event received exactly once and in production order; outputs vs the same program without contexts. Reports distinct interleavings and full-queue episodes actually seen.", "Schedules are sampled, not enumerated; a missing receive counts as loss only when the forward had observed a full queue, otherwise inconclusive.", "DESIGN §2 C26")
+claim("C27", "exploration", "runtime monitor: consistent-cut condition over the H7 trace for every completed coordinated checkpoint",
+      "Random trigger_checkpoint positions on the same orchestrator runs; per completed checkpoint: forwarded-before-producer-barrier == received-before-consumer-barrier for every cross-context event; stored checkpoint holds one snapshot per context whose events_processed equals the events received before the barrier.", "Sampled schedules; the model-checked half of the quantifier is out of family; no restore+replay end-to-end lane.", "DESIGN §2 C27")
+claim("C28", "exploration", "runtime monitor: request sequences through the real warp routes with deep tenant snapshots",
+      "Sequences of 4-12 requests over 2-3 tenants and all 12 pipeline endpoints with own / foreign / unknown pipeline ids: a foreign request is never carried out, no response contains another tenant's data, every other tenant's deep snapshot (pipelines, sources, usage, engine counters, pending outputs, checkpoint) is unchanged after every request.", "inject-batch answers 200 {accepted:0} for foreign ids: 'carried out' is judged by effect, not status.", "DESIGN §2 C28")
+claim("C31", "exploration", "runtime monitor: (dev,inode) oracle independent of canonicalize over random trees with symlinks",
+      "Random directory trees with symlinks inside/outside/dangling/cyclic and path strings from a grammar; every path validate_path accepts (and every file the LoadFile handler reads) must stat into the inode set of a no-follow walk of the work directory.", "sanitize_filename / is_suspicious_path have no callers and are not checked.", "DESIGN §2 C31")
+claim("C33", "exploration", "runtime monitor: history model of worker availability with bracketed virtual ages",
+      "Histories over 1-4 workers (heartbeat, sweep+failover, drain, deregister, status change, deploy, manual migrate, rebalance) against mock workers: every placement on a registered Ready worker, pins honoured when the pinned worker is available, unhealthy exactly at the first sweep with age > timeout (age bracketed by before/after clock reads), heartbeat restores Ready.", "Ages by back-dating last_heartbeat; the exact-equality boundary is not observable with a real clock.", "DESIGN §2 C33")
+claim("C34", "exploration", "runtime monitor: exhaustive matcher oracle + single/batch stickiness against recording mock workers",
+      "event_type_matches / find_target_pipeline exhaustively over 26 patterns x 40 types and all small route tables; key-hash stickiness across the single (JSON) and batch (.evt) injection paths with int/float/string/missing keys; round-robin loads within 1 over every contiguous run.", "No NaN/inf keys; int and float of equal magnitude are different keys.", "DESIGN §2 C34")
+claim("C35", "exploration", "runtime monitor: reference fold + snapshot differential + openraft's own storage conformance suite on both stores",
+      "Random command logs over all command kinds in random batchings on MemStore and RocksStore vs a reference model; snapshot at every index installed on a fresh store + rest of log vs full replay; all tests of openraft::testing::Suite against both stores.", "RocksStore lanes sampled in quick.", "DESIGN §2 C35")
+claim("C39", "exploration", "runtime monitor: inject -> parse -> load round trip with hostile parameter strings",
+      "Validated connectors with hostile values injected into generated sources: result parses, other statements unchanged (AST, spans stripped), Engine::load shows exactly the stored strings.", "client_id_mode=append_pipeline excluded (documented rewrite).", "DESIGN §2 C39")
+claim("C40", "exploration", "runtime monitor: equivalence-relation and eq=>hash checks over equivalence-heavy value pools",
+      "Pools of values of depth <=3 over every variant incl. NaN, -0.0 and maps rebuilt in permuted orders: reflexivity, symmetry, transitivity on all triples, a==b => hash(a)==hash(b) under two hashers.", "", "DESIGN §2 C40")
+claim("C41", "exploration", "runtime monitor: subprocess-sharded parser fuzzing with in-range location oracle and CPU-time bound",
+      "Grammar-aware and byte-level mutations of the example programs parsed in subprocess shards (an abort is observed by the parent): returns Ok/Err, no abort, every reported position/line/column inside the ORIGINAL input, CPU time per input under a cap re-measured in isolation.", "Only out-of-range locations are decidable; cap is 90 s CPU (statement asks for bounded time only).", "DESIGN §2 C41")
+claim("C42", "exploration", "runtime monitor: differential between loop expansion by the parser and by the harness's own substitution",
+      "Loop trees (depth <=2, 0-6 iterations, .. and ..=) over several declaration kinds rendered with loops and hand-expanded; both parsed by the real parser; ASTs compared with spans stripped, order included.", "", "DESIGN §2 C42")
+claim("C43", "exploration", "runtime monitor: catch_unwind + range-in-document oracle over all LSP handlers at every position",
+      "All seven handlers on mutated documents (incl. multi-byte characters) at every position within and just past the text; no panic; every returned range inside the document.", "definition/references sampled every third position on documents > 120 bytes.", "DESIGN §2 C43")
+claim("C44", "exploration", "runtime monitor: JSON round trip through the real inject / inject-batch routes with an exact-text number model",
+      "JSON payloads of depth <=4 (i64/u64 boundaries, floats, unicode strings, nested arrays/objects, null) through POST /events and /events-batch into a pipeline that also emits type_of: in-engine type and returned JSON must equal the injected JSON (numbers compared exactly as text).", "Integers beyond 64 bit are only required to come back as the nearest double.", "DESIGN §2 C44")
+claim("C46", "exploration", "runtime monitor: differential between the preloading and the streaming event-file reader",
+      "Generated files from all documented line forms + all shipped .evt files through EventFileParser::parse and StreamingEventReader; same events in the same order, or both reject; disagreements located per line form.", "", "DESIGN §2 C46")
+
 NOT_BUILT = "check not built yet in this session (see DESIGN.md §2 for the planned monitor); nothing is claimed for it"
 
 checks = []
